@@ -20,6 +20,9 @@ RECEIVERS = ["a", "'lit'", "f()", "o.p", "o.prototype", "o[k]", "(a)", "[a, b]",
 METHODS = ["trim", "substring", "concat", "replace", "slice", "trimStart", "toUpperCase", "padStart", "call", "apply"]
 THIS_ARGS = ["a", "'lit'", "f()", "o.p", "...r", "undefined", "[a]", "this", "a + b"]
 
+SPECIAL_LITS = [r"'\\'", r"'\\users\\'", "'`'", "'${x}'", r"'\n'", r"'\u0041'", r"'\x41'", r"'it\'s'", r'"q\"q"', r"'\\1'", r"'\\u'", r"'a\\'",
+                r"'\0'", "'\u2028'", "'</script>'", r"'\r\n'", "'\t'", "''", "'\ud83d\ude00'", r"'\ud83d'", "'/*'", "'//'", "'é'"]
+
 CONTEXTS = [
     "function f(a,b,o,k,r,q,x,y,z,i,arr){ return %s; }",
     "function f(a,b,o,k,r,q,x,y,z,i,arr){ const v = %s; return v; }",
@@ -139,6 +142,13 @@ def operations(rng, reserved=None):
         lambda: "a.concat(a, %s, a)" % o(),
         lambda: "x + %s + x" % par(o()),
         lambda: "a.replace(a, a)",
+        # string literals with characters that need care when they are printed or folded into other text
+        lambda: "`${a}${%s}`" % rng.choice(SPECIAL_LITS),
+        lambda: "`p${%s}q${b}${%s}`" % (rng.choice(SPECIAL_LITS), rng.choice(SPECIAL_LITS)),
+        lambda: "a + %s + b" % rng.choice(SPECIAL_LITS),
+        lambda: "a.concat(%s, b)" % rng.choice(SPECIAL_LITS),
+        lambda: "%s.concat(a)" % rng.choice(SPECIAL_LITS),
+        lambda: "x += %s" % rng.choice(SPECIAL_LITS),
         # a bare comma expression where the grammar allows a full Expression
         lambda: "`x${a, %s}y`" % o(),
         lambda: "`${f(), a}${b}`",
